@@ -349,6 +349,9 @@ func (c *SimConn) data(req []byte, cmd uint8, attrs []*NLA) {
 
 func (c *SimConn) handle(m []byte) {
 	k := c.k
+	if c.role == "mcast" {
+		return
+	}
 	if c.role == "rtnl" {
 		c.ack(m, 0)
 		return
